@@ -342,6 +342,8 @@ def classify(di, w, previous=None):
             return REJECT, {RANGE}
         if not di.get('isUTF8') and not w.isascii():
             return REJECT, {RANGE}
+        if any(0xD800 <= ord(c) <= 0xDFFF for c in w):
+            return DONTCARE, None     # an unpaired surrogate (legal JSON escape, no Unicode text)
         return ACCEPT, w
     if t == 'blob':
         if not isinstance(w, str):
@@ -459,6 +461,9 @@ def _mutate(rng, di, w):
             c.append('x' * (di['minchars'] - 1))
         if not di.get('isUTF8'):
             c.append((w[:-1] if 'maxchars' in di and w else w) + 'é')
+        # half an emoji: json.loads accepts the escape of an unpaired surrogate
+        c.append((w[:-1] if 'maxchars' in di and w else w) + '\ud83d')
+        c.append('\ud83d')
         return rng.choice(c)
     if t == 'blob':
         c = [5, [w], None, '!!!!', w + '=' if w else '=', 'AAA', w[:-1] + '*' if w else '*',
